@@ -29,6 +29,7 @@ type Op struct {
 	Limit  int    `json:",omitempty"` // value MaxFunc returns for this request
 	Status int    `json:",omitempty"` // status the protected handler answers
 	Dt     int    `json:",omitempty"` // adv: seconds
+	Slow   int    `json:",omitempty"` // req: the protected handler takes this many seconds (the window may roll over meanwhile)
 }
 
 type Case struct {
@@ -70,6 +71,9 @@ func newLimiter(c Case, st *vk.Storage, onHandler func(fiber.Ctx)) *fiber.App {
 	}
 	app.Get("/", func(ctx fiber.Ctx) error {
 		onHandler(ctx)
+		if slow, _ := strconv.Atoi(ctx.Query("slow")); slow > 0 {
+			vk.Advance(uint32(slow))
+		}
 		st, _ := strconv.Atoi(ctx.Query("st"))
 		if st == 0 {
 			st = 200
@@ -123,6 +127,9 @@ func check(c Case) vk.Verdict {
 		exp = 60
 	}
 	for i, op := range c.Ops {
+		if v := vk.Now(); v > now {
+			now = v // a slow handler of the previous request moved the clock
+		}
 		if c.Default && op.Kind == "req" {
 			op.Key, op.Limit = "ip", 5 // every request of the harness comes from one address
 		}
@@ -180,8 +187,10 @@ func check(c Case) vk.Verdict {
 			w.adm, w.all = 0, 0
 		}
 		before := admitted
-		r := vk.Do(app, "GET", fmt.Sprintf("/?k=%s&st=%d&lim=%d", op.Key, op.Status, limit))
+		r := vk.Do(app, "GET", fmt.Sprintf("/?k=%s&st=%d&lim=%d&slow=%d", op.Key, op.Status, limit, op.Slow))
 		ran := admitted > before
+		retryNow := now // (a slow handler moved the clock meanwhile; everything below is judged at the time of arrival, and a
+		// give-back belongs to the window the hit was counted in - the model rolls its window lazily at the next request)
 		status := r.Response.StatusCode()
 		ctx := fmt.Sprintf("op %d (key %s limit %d) at t=%d, %s/%s exp=%ds window end=%d admitted=%d all=%d prev=%d/%d", i, op.Key, limit, now-1_000_000-uint32(c.T0), c.Algo, c.Store, c.Exp, w.end-1_000_000-uint32(c.T0), w.adm, w.all, w.prevAdm, w.prevAll)
 		if limit > 0 {
@@ -196,10 +205,7 @@ func check(c Case) vk.Verdict {
 				weight := float64(w.end-now) / float64(exp)
 				loPrev := w.prevAdm
 				hiPrev := w.prevAll
-				if w.altAll > hiPrev && c.Store == "vk-nottl" {
-					// only a storage that keeps records beyond their TTL can still carry the hits of the window before the gap
-					hiPrev = w.altAll
-				}
+
 				rateFloor := math.Floor(float64(loPrev)*weight) + float64(w.adm+1)
 				rateReal := float64(hiPrev)*weight + float64(w.all+1)
 				if ran && rateFloor > float64(limit) {
@@ -234,8 +240,8 @@ func check(c Case) vk.Verdict {
 			if err != nil {
 				return vk.Failf("%s: 429 without a numeric Retry-After (%q)", ctx, r.Response.Header.Peek("Retry-After"))
 			}
-			if !c.SubSec && uint32(ra) != w.end-now {
-				return vk.Failf("%s: Retry-After %d, want %d (time until the window resets)", ctx, ra, w.end-now)
+			if !c.SubSec && uint32(ra) != w.end-retryNow {
+				return vk.Failf("%s: Retry-After %d, want %d (time until the window resets)", ctx, ra, w.end-retryNow)
 			}
 		}
 	}
@@ -276,6 +282,9 @@ func genCase(t *rapid.T) Case {
 			continue
 		}
 		o := Op{Kind: "req", Key: rapid.SampledFrom([]string{"a", "b", "c"}[:nkeys]).Draw(t, "k"), Status: rapid.SampledFrom([]int{200, 200, 500, 404}).Draw(t, "st"), Limit: constLimit}
+		if !c.SubSec && rapid.IntRange(0, 7).Draw(t, "slow") == 0 {
+			o.Slow = rapid.IntRange(1, 2*c.Exp).Draw(t, "slowsecs")
+		}
 		if mode == "dynamic" {
 			o.Limit = rapid.IntRange(0, 5).Draw(t, "lim")
 		}
